@@ -141,7 +141,7 @@ func (s *Seq) String() string {
 // Additional sequence will be clipped and missing sequence will be filled with the gap letter.
 func (s *Seq) Add(n ...seq.Sequence) error {
 	for i := s.Start(); i < s.End(); i++ {
-		s.Seq[i] = append(s.Seq[i], s.column(n, i)...)
+		s.Seq[i-s.Offset] = append(s.Seq[i-s.Offset], s.column(n, i)...)
 	}
 	for i := range n {
 		s.SubAnnotations = append(s.SubAnnotations, *n[i].CloneAnnotation())
